@@ -101,6 +101,14 @@ var boolLeaves = []*node{
 	{lit: "(T)$", k: kBool, leaf: func(v *vals) interface{} { return v.T }},
 	{lit: "((P)$!=nil)", k: kBool, leaf: func(v *vals) interface{} { return v.P != nil }},
 	{lit: "((P)$==nil)", k: kBool, leaf: func(v *vals) interface{} { return v.P == nil }},
+	// prefix ! directly before a field reference (no parentheses), once and twice; a nil
+	// pointer and a zero are falsy
+	{lit: "!(P)$", k: kBool, leaf: func(v *vals) interface{} { return v.P == nil || *v.P == 0 }},
+	{lit: "!!(P)$", k: kBool, leaf: func(v *vals) interface{} { return !(v.P == nil || *v.P == 0) }},
+	{lit: "!(T)$", k: kBool, leaf: func(v *vals) interface{} { return !v.T }},
+	{lit: "!!(T)$", k: kBool, leaf: func(v *vals) interface{} { return v.T }},
+	{lit: "!$", k: kBool, leaf: func(v *vals) interface{} { return v.X == 0 }},
+	{lit: "!!$", k: kBool, leaf: func(v *vals) interface{} { return v.X != 0 }},
 }
 
 func genK(r *mon.Rand, d int, k kind) *node {
